@@ -438,8 +438,74 @@ pub fn run_c17(cfg: &Cfg, kt: KeyType, ops: &[Op], seeds: [u64; 4], swaps: &[usi
     None
 }
 
+/// Construction through `FromIterator` / `From` is part of the history too: the same input
+/// must give the same cache (order, eviction choice) every time, whatever the hidden hasher
+/// seeds of the moment are.
+fn conversions_deterministic(out: &mut ShardOut, rng: &mut Rng) {
+    use caches::{Cache, RawLRU, ResizableCache};
+    use std::collections::{BTreeMap, LinkedList, VecDeque};
+    fn observe(c: &mut RawLRU<u32, u32>) -> Vec<(u32, u32)> {
+        let mut v: Vec<(u32, u32)> = c.iter().map(|(k, v)| (*k, *v)).collect();
+        v.push((u32::MAX, c.cap() as u32));
+        // eviction choices
+        for i in 0..3u32 {
+            if let caches::PutResult::Evicted { key, value } = c.put(1_000_000 + i, 0) {
+                v.push((key, value));
+            }
+        }
+        c.resize(2);
+        v.extend(c.iter().map(|(k, v)| (*k, *v)));
+        v
+    }
+    for round in 0..40u32 {
+        let n = rng.range(2, 30) as usize;
+        let mut items: Vec<(u32, u32)> = (0..n as u32).map(|i| (rng.below(1000) as u32 * 7 + i, i)).collect();
+        if round % 3 == 0 {
+            // repeated keys
+            let d = items[0];
+            items.push((d.0, 99));
+        }
+        let builds: Vec<(&str, Box<dyn Fn() -> RawLRU<u32, u32>>)> = vec![
+            ("from(Vec)", Box::new({ let it = items.clone(); move || RawLRU::from(it.clone()) })),
+            ("from(&[..])", Box::new({ let it = items.clone(); move || RawLRU::from(&it[..]) })),
+            ("collect()", Box::new({ let it = items.clone(); move || it.iter().cloned().collect() })),
+            ("from(VecDeque)", Box::new({ let it = items.clone(); move || RawLRU::from(it.iter().cloned().collect::<VecDeque<_>>()) })),
+            ("from(LinkedList)", Box::new({ let it = items.clone(); move || RawLRU::from(it.iter().cloned().collect::<LinkedList<_>>()) })),
+            ("from(BTreeMap)", Box::new({ let it = items.clone(); move || RawLRU::from(it.iter().cloned().collect::<BTreeMap<_, _>>()) })),
+        ];
+        for (name, b) in builds {
+            let r = guarded(|| {
+                let first = observe(&mut b());
+                for _ in 0..4 {
+                    let again = observe(&mut b());
+                    if again != first {
+                        return Some(format!("RawLRU::{} of the same {} pairs gives different caches on different builds: {:?} vs {:?}", name, items.len(), &first[..first.len().min(8)], &again[..again.len().min(8)]));
+                    }
+                }
+                None
+            });
+            out.cov.monitored += 1;
+            out.cov.triples.insert(format!("conversion|lru|{}|n{}", name, n.min(4)));
+            let d = match r {
+                Ok(x) => x,
+                Err(_) => None, // panics are C05's business
+            };
+            if let Some(d) = d {
+                let mut extra = BTreeMap::new();
+                extra.insert("note".into(), "conversion determinism (re-run the shard)".into());
+                out.add(mk_found("C17", "conversion-order", Kind::Lru, d, &Cfg::lru(1), KeyType::Tracked, &[], extra, [0; 4], 0));
+                return;
+            }
+        }
+    }
+}
+
 pub fn c17_suite(ctx: &Ctx) -> ShardOut {
     let mut out = ShardOut::default();
+    {
+        let mut r = Rng::new(mix(ctx.seed, 0xC17C) ^ ctx.shard);
+        conversions_deterministic(&mut out, &mut r);
+    }
     let mut rng = Rng::new(mix(ctx.seed, 0xC17) ^ ctx.shard.wrapping_mul(0x9E37));
     let deadline = Instant::now() + std::time::Duration::from_secs(ctx.max_secs);
     set_heapy(ctx.heapy);
